@@ -57,7 +57,7 @@ func TestVerifReplay(t *testing.T) {
 	if !ok {
 		t.Fatalf("unknown harness %s", vRec.Harness)
 	}
-	func() {
+	run := func() {
 		defer func() {
 			if r := recover(); r != nil {
 				if _, ok := r.(vAssumeFailed); ok {
@@ -68,7 +68,20 @@ func TestVerifReplay(t *testing.T) {
 			}
 		}()
 		h(vRec.Params)
-	}()
+	}
+	if vRec.Search > 0 {
+		for it := 1; it <= vRec.Search && len(vFailures) == 0 && !t.Failed(); it++ {
+			vSearchSeed = uint64(it)*0x9E3779B97F4A7C15 + 1
+			vPos = 0
+			vMarginal = nil
+			run()
+			if len(vFailures) > 0 {
+				t.Logf("VERIF-SEARCH-HIT: pseudo-random input number %d", it)
+			}
+		}
+	} else {
+		run()
+	}
 	for _, f := range vFailures {
 		t.Errorf("VERIF-FAIL: %s", f)
 	}
